@@ -26,6 +26,7 @@ pub open spec fn markup_flat<'a>(ch: Seq<&'a SyntaxNode>) -> Seq<MTok<'a>> { tok
 
 /// PF6: the lexer emits a maximal run of whitespace as ONE token (Space or Parbreak), so two whitespace tokens are never
 /// adjacent siblings; a Parbreak holds at least two line breaks
+#[verifier::opaque]
 pub open spec fn ws_not_adjacent(ch: Seq<&SyntaxNode>) -> bool {
     forall|i: int, j: int| 0 <= i && j == i + 1 && j < ch.len() && is_ws_kind((#[trigger] ch[i]).kind_s()) ==> !is_ws_kind((#[trigger] ch[j]).kind_s())
 }
@@ -33,7 +34,7 @@ pub open spec fn ws_not_adjacent(ch: Seq<&SyntaxNode>) -> bool {
 pub proof fn pf_markup_ws(n: &SyntaxNode)
     requires tree_wf(n),
     ensures
-        ws_not_adjacent(n.children_s()),
+        ws_not_adjacent(n.children_s()),   // (opaque: used through lemma_ws_adj)
         forall|j: int| 0 <= j < n.children_s().len() && (#[trigger] n.children_s()[j]).kind_s() == SyntaxKind::Parbreak ==> count_newlines_s(n.children_s()[j].text_s()) >= 2,
 {}
 /// PF7: trailing trivia is never part of a nested piece of markup (the body of a content block, strong/emph, heading or list
@@ -76,6 +77,7 @@ pub proof fn lemma_toks_of_concat<'a>(a: Seq<&'a SyntaxNode>, b: Seq<&'a SyntaxN
 pub open spec fn is_block_elem_kind(k: SyntaxKind) -> bool { k == SyntaxKind::ListItem || k == SyntaxKind::EnumItem || k == SyntaxKind::TermItem }
 /// a line that holds prose (text, strong, emph, raw) is a "mixed" line: embedded code on it is converted with breaks suppressed
 pub open spec fn is_prose_kind(k: SyntaxKind) -> bool { k == SyntaxKind::Text || k == SyntaxKind::Strong || k == SyntaxKind::Emph || k == SyntaxKind::Raw }
+#[verifier::opaque]
 pub open spec fn has_text_node(s: Seq<&SyntaxNode>) -> bool { exists|j: int| 0 <= j < s.len() && is_prose_kind((#[trigger] s[j]).kind_s()) }
 pub proof fn lemma_subrange_push<'a>(ch: Seq<&'a SyntaxNode>, a: int, b: int)
     requires 0 <= a <= b < ch.len(),
@@ -194,3 +196,32 @@ pub open spec fn markup_piece_ok(store: AttrStore, t: MTok, d: DocV) -> bool {
 /// the only things the engine may put at the outer edges of a piece of markup
 pub open spec fn edge_doc(d: DocV) -> bool { d == DocV::Nil || d == DocV::Hardline || d == DocV::LineSoft || d == DocV::Line || d == sp() }
 pub open spec fn is_single_space(ch: Seq<&SyntaxNode>) -> bool { ch.len() == 1 && ch[0].kind_s() == SyntaxKind::Space }
+/// a child at the edge of a piece of markup next to which no blank may be invented: not whitespace, not a comment, not a block element
+pub open spec fn plain_edge_kind(k: SyntaxKind) -> bool { !is_ws_kind(k) && !is_comment_kind(k) && !is_block_elem_kind(k) }
+pub proof fn lemma_ws_adj(ch: Seq<&SyntaxNode>, i: int)
+    requires ws_not_adjacent(ch), 0 <= i, i + 1 < ch.len(), is_ws_kind(ch[i].kind_s()),
+    ensures !is_ws_kind(ch[i + 1].kind_s()),
+{ reveal(ws_not_adjacent); }
+pub proof fn lemma_htn_empty(s: Seq<&SyntaxNode>)
+    requires s.len() == 0,
+    ensures !has_text_node(s),
+{ reveal(has_text_node); }
+pub proof fn lemma_htn_push(s: Seq<&SyntaxNode>, n: &SyntaxNode)
+    ensures has_text_node(s.push(n)) == (has_text_node(s) || is_prose_kind(n.kind_s())),
+{
+    reveal(has_text_node);
+    let s1 = s.push(n);
+    if has_text_node(s) { let j = choose|j: int| 0 <= j < s.len() && is_prose_kind((#[trigger] s[j]).kind_s()); assert(s1[j] == s[j]); }
+    if is_prose_kind(n.kind_s()) { assert(s1[s1.len() - 1] == n); }
+    if has_text_node(s1) { let j = choose|j: int| 0 <= j < s1.len() && is_prose_kind((#[trigger] s1[j]).kind_s()); if j < s.len() { assert(s1[j] == s[j]); } }
+}
+/// dropping trailing blanks does not change whether a line holds prose
+pub proof fn lemma_htn_trim(s: Seq<&SyntaxNode>, m: int)
+    requires 0 <= m <= s.len(), forall|j: int| m <= j < s.len() ==> (#[trigger] s[j]).kind_s() == SyntaxKind::Space,
+    ensures has_text_node(s.subrange(0, m)) == has_text_node(s),
+{
+    reveal(has_text_node);
+    let t = s.subrange(0, m);
+    if has_text_node(t) { let j = choose|j: int| 0 <= j < t.len() && is_prose_kind((#[trigger] t[j]).kind_s()); assert(s[j] == t[j]); }
+    if has_text_node(s) { let j = choose|j: int| 0 <= j < s.len() && is_prose_kind((#[trigger] s[j]).kind_s()); if j < m { assert(s[j] == t[j]); } }
+}
